@@ -264,14 +264,27 @@ func (e *FnEnc) builtin(v ssa.Value, b *ssa.Builtin, c *ssa.CallCommon, args []V
 		}
 		e.setVal(v, t)
 	case "copy":
-		dst := args[0]
+		dst, src := args[0], args[1]
 		st := c.Args[0].Type().Underlying().(*types.Slice)
 		h := s.ArrHeap(st.Elem())
-		na := e.declare("arr", "(Array Int "+s.SortOf(st.Elem())+")")
-		e.setHeap(h, sx("store", e.heap(h), sx("sref", dst.T), na))
-		e.abstract("copy: destination contents unconstrained")
+		es := s.SortOf(st.Elem())
+		var srcRow, srcLen string
+		if isString(c.Args[1].Type()) {
+			srcLen = sx("str.len", src.T)
+			srcRow = e.W.UF("str.bytes", []string{"String"}, "(Array Int Int)", src.T)
+			e.emit(fmt.Sprintf("(assert (forall ((i!q Int)) (! (=> (and (<= 0 i!q) (< i!q (str.len %s))) (= (select %s i!q) (str.to_code (str.at %s i!q)))) :pattern ((select %s i!q)))))", src.T, srcRow, src.T, srcRow))
+		} else {
+			srcLen = sx("slen", src.T)
+			srcRow = sx("select", e.heap(h), sx("sref", src.T))
+		}
+		srcN := e.declareEq("copy.src", "(Array Int "+es+")", srcRow)
+		oldN := e.declareEq("copy.old", "(Array Int "+es+")", sx("select", e.heap(h), sx("sref", dst.T)))
+		n := e.define("copy.n", "Int", ite(sx("<=", sx("slen", dst.T), srcLen), sx("slen", dst.T), srcLen))
+		na := e.declare("copy.new", "(Array Int "+es+")")
+		e.emit(fmt.Sprintf("(assert (forall ((i!q Int)) (! (= (select %s i!q) (ite (and (<= 0 i!q) (< i!q %s)) (select %s i!q) (select %s i!q))) :pattern ((select %s i!q)))))", na, n, srcN, oldN, na))
+		e.setHeap(h, ite(sx("=", sx("sref", dst.T), "0"), e.heap(h), sx("store", e.heap(h), sx("sref", dst.T), na)))
 		if v != nil {
-			e.havocVal(v)
+			e.setVal(v, n)
 		}
 	case "print", "println":
 	case "panic":
@@ -540,6 +553,13 @@ func (e *FnEnc) sprintfModel(c *ssa.CallCommon, args []Val) (string, bool) {
 		switch {
 		case verb == "%s" && isString(inner.Type()):
 			parts = append(parts, iv.T)
+		case (verb == "%s" || verb == "%v") && isByteSlice(inner.Type()) && iv.T != "":
+			if lit, ok := e.W.globalInitString(inner); ok {
+				parts = append(parts, strLit(lit))
+			} else {
+				row := sx("select", e.heap(e.sorts().ArrHeap(types.Typ[types.Uint8])), sx("sref", iv.T))
+				parts = append(parts, e.W.UF("str.ofbytes", []string{"(Array Int Int)", "Int"}, "String", row, sx("slen", iv.T)))
+			}
 		case verb == "%d" && isInteger(inner.Type()):
 			parts = append(parts, sx("str.itoa", iv.T))
 		case iv.T != "" && (verb == "%v" || verb == "%s") && isString(inner.Type()):
@@ -817,4 +837,9 @@ func immutableHeap(name string) bool {
 		return true
 	}
 	return false
+}
+
+func isByteSlice(t types.Type) bool {
+	st, ok := t.Underlying().(*types.Slice)
+	return ok && isByte(st.Elem())
 }
